@@ -138,7 +138,7 @@ class ApiCheck(object):
         self.k = 4 if self.tier == 'quick' else 8
         self.hashseeds = hashseed_list(self.seed, self.k)
         self.budget_s = opts.budget if opts.budget is not None else (70 if self.tier == 'quick' else 900)
-        self.rep = common.Reporter('C11', self.seed)
+        self.rep = common.Reporter('C11', self.seed, opts.replay_dir)
         self.stats = {
             'runs': 0, 'threaded_runs': 0, 'sequential_runs': 0, 'calls': 0, 'steps': 0, 'switches': 0,
             'opcode_runs': 0, 'heap_runs': 0, 'inconclusive_resource': 0, 'step_cap': 0, 'i3_checks': 0,
@@ -166,7 +166,7 @@ class ApiCheck(object):
         started = 0
         try:
             while True:
-                while self.pool.queued() < 2 * len(self.pool.zygotes) and not budget.exhausted(started):
+                while self.pool.queued() < 2 * len(self.pool.zygotes) and not budget.exhausted(started) and not self.stop_early():
                     self.submit_run(started)
                     started += 1
                 if self.pool.pending() == 0:
@@ -177,6 +177,9 @@ class ApiCheck(object):
             self.handle_candidates()
         finally:
             self.explore_wall = budget.elapsed()
+
+    def stop_early(self):
+        return self.opts.fail_fast and any(self.rep.classify(v) is None for c in self.candidates for v in c['vios'])
 
     def submit_run(self, index):
         spec, hs, ref_hs, meta = apigen.gen_api_spec(self.seed, index, self.k, self.tier)
